@@ -62,6 +62,55 @@ func runC19(c *core.Ctx) core.Meta {
 
 	// ---------------- PMC ----------------
 	p := NewPkgInfo(c, pmcPkg)
+
+	// R19.10 the owner answers whoever asked last
+	st10 := c.Rule("R19.10", "a page-migration controller that serves a pull request sends the data to the controller that asked for it: the handler that accepts a DataPullReq stores the request's Src in the field the responses are addressed with (PageMigrationController.requestingPMCtrlPort) on every path to its return - unconditionally, since the field is never cleared. Recording the requester only when none is recorded addresses every later migration's chunks to the first controller that ever pulled from this owner: the third GPU's page is never filled and the first one panics on data it did not ask for", 1)
+	for _, fn := range p.Funcs {
+		takesPull := false
+		for _, prm := range fn.Params {
+			if strings.HasSuffix(namedTypeName(prm.Type()), "DataPullReq") {
+				takesPull = true
+			}
+		}
+		if !takesPull || len(fn.Blocks) == 0 {
+			continue
+		}
+		hasRetrieve := false
+		for _, b := range fn.Blocks {
+			for _, in := range b.Instrs {
+				if cc := core.CallOf(in); cc != nil && cc.IsInvoke() && cc.Method.Name() == "RetrieveIncoming" {
+					hasRetrieve = true
+				}
+			}
+		}
+		if !hasRetrieve {
+			continue
+		}
+		st10.Instances++
+		c.MarkAnalysed(fn)
+		g := core.BuildGraph(fn, 0, nil)
+		var leak *core.Node
+		okW := g.Walk([]core.State{{N: g.Entry}}, core.WalkOpts{ForwardOnly: true, Stop: func(m *core.Node) bool {
+			sto, ok := storeToField(m.Instr, "PageMigrationController.requestingPMCtrlPort")
+			if !ok {
+				return false
+			}
+			f := core.LoadedField(sto.Val)
+			return f != nil && f.Name() == "Src"
+		}}, func(x core.State) {
+			if r, isRet := x.N.Instr.(*ssa.Return); isRet && leak == nil {
+				if len(r.Results) == 1 && core.EvalFact(x.N, r.Results[0], x.F) < 0 {
+					return // the request was not accepted on this path
+				}
+				leak = x.N
+			}
+		})
+		st10.Ob(okW && leak == nil)
+		st10.Sample("%s: the requester of the pull is recorded on every path that accepts it: %v", core.FuncName(fn), leak == nil)
+		if leak != nil {
+			c.ReportAt("R19.10", fn, leak.Instr.Pos(), "pull-requester-not-recorded:"+core.FuncName(fn), core.FuncName(fn)+" can accept a DataPullReq without storing its Src as the destination of the responses: the chunks are sent to the controller recorded by an earlier migration (GPU B pulled from this owner before; GPU C's chunks go to B, which panics, and C's page is never filled)")
+		}
+	}
 	RunProto(c, &ProtoCfg{
 		AllEffectsAfterSend: true,
 		RuleBase:            "R19.1.pmc", Pkg: pmcPkg, FloorSends: 5,
